@@ -192,13 +192,31 @@ def replay(data):
             if (pr < -1e-12).any() or abs(pr.sum() - 1) > 1e-4:
                 bad.append((a, float(pr.sum())))
     else:
+        import scipy.stats as st
         hs_m, Qa, Qb = job["m"], job["Qa"], job["Qb"]
-        for ma, mb in itertools.product((0.5, 5.0, 9.0), repeat=2):
-            pb = shipped.build("hendrix", max_useful_life=hs_m, max_order_quantity_a=Qa, max_order_quantity_b=Qb, demand_poisson_mean_a=ma, demand_poisson_mean_b=mb)
+        kind = data["obligation"].split("[")[0]
+        for ma, mb, sp in itertools.product((0.5, 2.0, 9.0), (0.5, 2.0, 9.0), (0.0, 0.3, 1.0)):
+            pb = shipped.build("hendrix", max_useful_life=hs_m, max_order_quantity_a=Qa, max_order_quantity_b=Qb, demand_poisson_mean_a=ma, demand_poisson_mean_b=mb,
+                               substitution_probability=sp)
+            K = pb.max_demand
             pr = np.asarray(jax.vmap(jax.vmap(pb.random_event_probability, in_axes=(None, None, 0)), in_axes=(0, None, None))(
                 pb.state_space, jnp.array([0, 0]), pb.random_event_space))
-            s = pr.sum(1)
-            if (pr < -1e-12).any() or (np.abs(s - 1) > 1e-4).any():
-                i = int(np.argmax(np.abs(s - 1)))
-                bad.append((ma, mb, np.asarray(pb.state_space)[i].tolist(), float(s[i])))
-    return bool(bad), f"{job['name']}: " + (f"probabilities do not sum to 1 within 1e-4 (or negative): {bad[:3]}" if bad else "real special functions: sums within tolerance on the parameter grid")
+            pa, pbm = st.poisson.pmf(np.arange(K + 1), ma), st.poisson.pmf(np.arange(K + 1), mb)
+            for i, stt in enumerate(np.asarray(pb.state_space)):
+                sb = int(stt[hs_m:].sum())
+                tot = float(pr[i].sum())
+                dropped = 1.0 - pbm[:K].sum()
+                for db in range(sb, K):
+                    x = db - sb
+                    kept = sum(pa[da] * st.binom.pmf(u, x, sp) for u in range(x + 1) for da in range(K + 1) if da + u <= K)
+                    dropped += pbm[db] * (1.0 - kept)
+                if kind == "nonneg":
+                    wrong = (not np.isfinite(pr[i]).all()) or (pr[i] < -1e-12).any()
+                elif kind == "sum==1":
+                    wrong = (not np.isfinite(tot)) or abs(tot - 1) > 1e-4
+                else:
+                    wrong = (not np.isfinite(tot)) or abs(tot + dropped - 1) > 1e-6 or tot > 1 + 1e-9
+                if wrong:
+                    bad.append((ma, mb, sp, stt.tolist(), tot, float(dropped)))
+                    break
+    return bool(bad), f"{job['name']}: " + (f"real special functions: fails at (parameters..., state, sum, dropped mass) {bad[:2]}" if bad else "real special functions: holds on the parameter grid")
